@@ -310,15 +310,7 @@ func ccScenario(name, prop string, p proto, gen func(proto, *simrt.Tape, string)
 		Run: func(s *simrt.Sim, tier string) func(simrt.RunResult) []simrt.Violation {
 			t := s.Tape()
 			cfg := gen(p, t, tier)
-			// scheduling policy for search mode
-			switch t.Weighted(3, 2, 1) {
-			case 0:
-				s.SwitchNum, s.SwitchDen = 1, 4
-			case 1:
-				s.SwitchNum, s.SwitchDen = 1, 2
-			case 2:
-				s.SwitchNum, s.SwitchDen = 1, 20
-			}
+			s.Probe("policy-" + pickPolicy(s))
 			if cfg.stall {
 				s.StallPermille = 15
 			}
@@ -331,6 +323,7 @@ func ccScenario(name, prop string, p proto, gen func(proto, *simrt.Tape, string)
 					return v.list
 				}
 				oracle(st, v)
+				st.reachProbes()
 				return v.list
 			}
 		},
